@@ -193,13 +193,22 @@ type oneTimeListener struct {
 	evt     EventName
 	emitter *emmiter
 	fn      Listener
+	entry   *eventEntry // this listener's own registration
 }
 
 func (l *oneTimeListener) execute(vals ...any) {
 	l.fired.Do(func() {
-		defer l.emitter.RemoveListener(l.evt, l.fn)
+		defer l.emitter.removeEntry(l.evt, l.entry)
 		l.fn(vals...)
 	})
+}
+
+// removeEntry removes exactly the given registration (and not another
+// registration of the same function).
+func (e *emmiter) removeEntry(evt EventName, entry *eventEntry) {
+	if evtEntry, ok := e.evtListeners.Load(evt); ok {
+		evtEntry.Remove(func(l *eventEntry) bool { return l == entry })
+	}
 }
 
 func (e *emmiter) Once(evt EventName, listeners ...Listener) error {
@@ -214,6 +223,7 @@ func (e *emmiter) Once(evt EventName, listeners ...Listener) error {
 		}
 		oneTime := &oneTimeListener{fired: &sync.Once{}, evt: evt, emitter: e, fn: event}
 		events[i] = &eventEntry{fn: oneTime.execute, ptr: reflect.ValueOf(event).Pointer()}
+		oneTime.entry = events[i]
 	}
 	return e.addListeners(evt, events)
 }
